@@ -121,12 +121,28 @@ pub fn pool(seed: u64) -> Pool {
     c.insert("B".to_string(), all[3].clone());
     c.insert("-".to_string(), all[0].clone());
     // lazer mods with settings: taiko DifficultyAdjust scroll speed, and a different overall difficulty
-    c.insert("C".to_string(), Cfg { mods: 0, da_scroll: Some(2.0), od: Some((9.5, false)), ..Default::default() });
-    c.insert("D".to_string(), Cfg { mods: 16, da_scroll: Some(0.5), od: Some((2.0, false)), clock_rate: Some(0.8), ..Default::default() });
+    c.insert("C".to_string(), Cfg { mods: 0, da_scroll: Some(2.0), od: Some((9.5, false)), random_seed: Some(7), ..Default::default() });
+    c.insert("D".to_string(), Cfg { mods: 16, da_scroll: Some(0.5), od: Some((2.0, false)), clock_rate: Some(0.8), random_seed: Some(1234), ..Default::default() });
     Pool { texts, cfgs: c }
 }
 
 pub const GSTEPS: usize = 4;
+
+/// Steps per "gnext" job: h1 / h2 advance in chunks of 4; the other handles take 9 objects on their first call
+/// (well past the objects without a difficulty object, into the region where strains differ) and then single steps, so that two
+/// calculators can be driven in lockstep over the same object index.
+pub fn gsteps(handle: &str, nth_call: u64) -> usize {
+    match handle {
+        "h1" | "h2" => GSTEPS,
+        _ => {
+            if nth_call == 1 {
+                9
+            } else {
+                1
+            }
+        }
+    }
+}
 
 fn digest(s: &str) -> String {
     format!("{:016x}", hash_str(s))
@@ -166,8 +182,8 @@ impl<'a> Runner<'a> {
                 let e = self.grads.entry(c.h.clone()).or_insert_with(|| (GradualDifficulty::new(d.clone(), map), 0));
                 e.1 += 1;
                 key = format!("{}/{}/{}/{}", c.op, c.m, c.cfg, e.1);
-                // one "gnext" = GSTEPS consecutive next() calls (differences may only show after several objects)
-                (0..GSTEPS).map(|_| format!("{:?}", e.0.next())).collect::<Vec<_>>().join("|")
+                // one "gnext" = several consecutive next() calls (differences may only show after several objects)
+                (0..gsteps(&c.h, e.1)).map(|_| format!("{:?}", e.0.next())).collect::<Vec<_>>().join("|")
             }
             other => format!("unknown op {other}"),
         });
@@ -302,7 +318,7 @@ pub fn threads_main(args: &[String]) -> i32 {
                             let taken = handles.lock().unwrap().remove(&c.h);
                             let cfg = &pool.cfgs[&c.cfg];
                             let (mut g, n) = taken.unwrap_or_else(|| (GradualDifficulty::new(cfg.difficulty(), &maps[&c.m]), 0));
-                            let r = guarded(|| (0..GSTEPS).map(|_| format!("{:?}", g.next())).collect::<Vec<_>>().join("|"));
+                            let r = guarded(|| (0..gsteps(&c.h, n + 1)).map(|_| format!("{:?}", g.next())).collect::<Vec<_>>().join("|"));
                             let n = n + 1;
                             handles.lock().unwrap().insert(c.h.clone(), (g, n));
                             let key = format!("{}/{}/{}/{}", c.op, c.m, c.cfg, n);
